@@ -50,6 +50,7 @@ def boot():
 # first event, so the overhead is confined to the anchored functions.
 # ---------------------------------------------------------------------------------------
 _anchor_counts = {}
+_all_counts = {}
 _anchor_names = set()
 _TOOL = None
 
@@ -71,11 +72,19 @@ def watch_anchors(names):
         _TOOL = None
         return
 
+    funcmap = bool(os.environ.get("VERIF_FUNCMAP"))
+
     def on_start(code, offset):
         fn = code.co_filename
         if not fn.startswith(prefix):
             return mon.DISABLE
         key = os.path.splitext(os.path.basename(fn))[0] + "." + code.co_name
+        if funcmap:
+            # development mode (tools/automutate.py): count every function of the library that the workload reaches
+            _all_counts[key] = _all_counts.get(key, 0) + 1
+            if key in _anchor_names:
+                _anchor_counts[key] += 1
+            return None
         if key in _anchor_names:
             _anchor_counts[key] += 1
             return None
@@ -92,3 +101,7 @@ def watch_anchors(names):
 
 def anchor_counts():
     return dict(_anchor_counts)
+
+
+def all_counts():
+    return dict(_all_counts)
